@@ -285,6 +285,12 @@ def run(ctx):
                   "(e.g. ldmxcsr from a slot that was never written, or an unbalanced stack adjustment)" % (lab, "; ".join(sorted(set(bad)))), line=j.line)
     d6_used_recorded(db, rep)
 
+    # D7: the generated loops process exactly ex->n elements: the region counters tile n on every emitted path (shared with
+    # C03 D10) - otherwise the function writes past the end of its destination arrays
+    import emitsym
+    for nm in ("orc_x86_emit_split_2_regions", "orc_x86_emit_split_3_regions"):
+        emitsym.check_tiling(db.func(nm, "orcprogram-x86"), rep, "D7-REGION-TILING", where)
+
     # MMX target provides clear_emms and it emits emms
     slot = None
     for t in db.tus.values():
